@@ -79,6 +79,9 @@ def run(R, tier):
 
     # ---- R04.8 whole-element tables (sa/rules/lexer.py: element_table) -----------------------------------------------------
     LX.check_elements(R, "R04.8", ("mnemonic", "chardata", "decimal", "string", "expression", "block", "non-decimal", "separator"), tier == "thorough")
+    # ---- R04.9 whole messages: the element sequence of complete well-formed messages (sa/rules/msgtable.py) ------------------
+    from . import msgtable as MT
+    MT.check_tokens(R, "R04.9", tier, 500)
 
     # ---- R04.1 length limits / R04.2 a datum is followed by a separator: named rows of the element tables -----------------
     # (Earlier versions inspected the readers' counters and their final skip_ws_to_separator call; that demanded one
